@@ -76,7 +76,7 @@ claim("C18", "DESIGN.md 6 C18",
       "translator (rustdoc JSON of the current tree -> generated Coq table) + Coq evaluation proof over the table, compared with rustc's synthesized auto-trait impls; rustc probes for the async fns")
 
 CO = (" The model is an acceptor at await-resolution granularity (Model/CoStream.v); the check derives the event list (source items, closure calls with their "
-      "arguments, completions, drops, result) from every run of the real drivers under random wake-only and adversarial schedules - 26 adapter stacks (five with the same adapter applied twice, three with enumerate above a map) and, for each, Vec::into_co_stream() against a ready stream source, x "
+      "arguments, completions, drops, result) from every run of the real drivers under random wake-only and adversarial schedules - 61 adapter stacks (every order of up to three of limit / take / enumerate / map, repeats of limit and take included; generated, tools/mkstacks.py) and, for each, Vec::into_co_stream() against a ready stream source, x "
       "for_each / try_for_each / collect into Vec / collect into Result<Vec<_>, E>, limits 1..3 and none, take 0..len+1, pending sources, failing and panicking closures, early drops - and requires "
       "that the acceptor accepts it; a monitor re-evaluates the property on every trace. The theorems hold for every accepted event list and every adapter "
       "configuration. Partial: the poll-level behaviour of futures_buffered::FuturesUnordered and of the compiler-generated async state machines is not "
